@@ -27,7 +27,38 @@ macro_rules! int_ops {
     }};
 }
 
+/// Second, implementation-level oracle: at widths 64 and 128 the primitive integer operations must
+/// agree with the `Uint` result (amounts below the width for shifts; any amount for rotations).
+fn native(op: &str, bits: usize, x: u128, s: u128, got: &str) -> Option<String> {
+    let m: u128 = if bits == 64 { u64::MAX as u128 } else { u128::MAX };
+    let sb = s < bits as u128;
+    let k = (s % bits as u128) as u32;
+    let want = match op {
+        "wshl" if sb => format!("{:x}", (x << s as u32) & m),
+        "wshr" if sb => format!("{:x}", x >> s as u32),
+        "oshl" if sb => format!("{:x} {}", (x << s as u32) & m, b(((x << s as u32) & m) >> s as u32 != x)),
+        "oshr" if sb => format!("{:x} {}", x >> s as u32, b((x >> s as u32) << s as u32 != x)),
+        "rotl" => format!("{:x}", if bits == 64 { (x as u64).rotate_left(k) as u128 } else { x.rotate_left(k) }),
+        "rotr" => format!("{:x}", if bits == 64 { (x as u64).rotate_right(k) as u128 } else { x.rotate_right(k) }),
+        "ashr" if sb => format!("{:x}", if bits == 64 { ((x as u64 as i64) >> s as u32) as u64 as u128 } else { ((x as i128) >> s as u32) as u128 }),
+        _ => return None,
+    };
+    if want == got { None } else { Some(format!("native-oracle-mismatch uint={got} native={want}")) }
+}
+
 fn run<const B: usize, const L: usize>(p: &[&str]) -> String {
+    let r = run_inner::<B, L>(p);
+    if B == 64 || B == 128 {
+        if let (Ok(x), Ok(s)) = (u128::from_str_radix(p[2], 16), u128::from_str_radix(p[3], 16)) {
+            if let Some(bad) = native(p[0], B, x, s, &r) {
+                return bad;
+            }
+        }
+    }
+    r
+}
+
+fn run_inner<const B: usize, const L: usize>(p: &[&str]) -> String {
     type U<const B: usize, const L: usize> = Uint<B, L>;
     let op = p[0];
     let a: U<B, L> = u(p[2]);
